@@ -13,7 +13,7 @@ from . import common as C, chan
 sys.path.insert(0, os.path.join(C.VERIF, "extract"))
 
 MODULE = "AcqVerif.Props.C05"
-DRIVERS = ["acq_frames", "acq_chan"]
+DRIVERS = ["acq_frames", "acq_chan", "acq_simcam", "acq_runtime", "AcqVerif.Channel.Translated"]
 THEOREMS = ["AcqVerif.C05.%s" % t for t in (
     "frame_size", "accumulator_size", "header_layout", "bytes_of_type_table", "regions_8_aligned", "regions_are_whole_writes")]
 
@@ -112,6 +112,22 @@ def run(ctx):
         ctx.cov["pipeline_runs"] = {"runs": ex.stats["runs"], "per_class": ex.stats["per_class"], "oracle_kinds_hit": ex.stats["oracle_kinds"],
                                     "cosim_ok": ex.stats["cosim_ok"]}
         ctx.cov["evaluations"] += ex.stats["runs"]
+    # (d) where the two halves of a frame header come from: source.c sizes the frame from camera_get_image_shape and copies the shape
+    # that camera_get_frame reports into the header — they must be one and the same shape, strides included (the shipped cameras at
+    # binning 1, 2, 4, 8; harness and model of C17, oracles frame-info-shape / frame-bytes / strides-do-not-match-dims)
+    from . import c17
+    keep = dict(ctx.cov)
+    exes = c17.build_harnesses(ctx)
+    sdrv = C.driver_path("acq_simcam")
+    v = "plain" if "plain" in exes else (list(exes) or [None])[0]
+    if v and os.path.exists(sdrv):
+        cases = c17.corpus_cases() + c17.rebin_cases() + c17.random_cases(ctx.rng, 40 if ctx.tier == "thorough" else 8, False)
+        cstats = {"branches": {}, "distinct": set(), "evaluations": 0, "ops": 0, "validated": 0, "tight": {}}
+        problems = c17.run_cases(exes[v], sdrv, v, cases, cstats, timeout=300)
+        mine = [p for p in problems if p[1] == "crash" or (p[1] == "oracle" and p[2]["msg"].split()[1] in ("frame-info-shape", "frame-bytes", "strides-do-not-match-dims"))]
+        c17.report(ctx, exes[v], sdrv, v, cases, mine)
+        keep["camera_header_shape_cases"] = {"cases": len(cases), "ops": cstats["ops"], "agree_with_camera_model": cstats["validated"]}
+    ctx.cov.clear(); ctx.cov.update(keep)
     ctx.cov["evaluations"] += n_sizes
     ctx.cov["size_cases"] = n_sizes
     ctx.cov["padding_residues_hit"] = pads
@@ -120,4 +136,12 @@ def run(ctx):
 
 
 def replay(ctx, path):
+    import json
+    rp = json.load(open(path)).get("replay", {})
+    if rp.get("harness") == "h_simcam_shape":
+        from . import c17
+        return c17.replay(ctx, path)
+    if "harness_input" in rp:
+        from . import rtx
+        return rtx.replay(ctx, path)
     return chan.replay(ctx, path, chan.C05_ORACLES)
